@@ -643,7 +643,17 @@ func dump(f *ssa.Function) {
 			case *ssa.Send:
 				io.Args = []string{val(x.Chan), val(x.X)}
 			case *ssa.Select:
-				io.X = "select"
+				var sts []map[string]any
+				for _, st := range x.States {
+					dir := "recv"
+					if st.Dir == types.SendOnly {
+						dir = "send"
+					}
+					io.Args = append(io.Args, val(st.Chan))
+					io.Args = append(io.Args, val(st.Send))
+					sts = append(sts, map[string]any{"dir": dir, "elem": tid(st.Chan.Type().Underlying().(*types.Chan).Elem())})
+				}
+				io.X = map[string]any{"blocking": x.Blocking, "states": sts}
 			case *ssa.DebugRef:
 				continue
 			default:
